@@ -131,7 +131,15 @@ class RGen:
             ins = [a] if t.pick(2) else [a, ""]  # ratio omitted (an arbitrary float would be rejected at run time)
             nodes.append(oh.make_node("Dropout", [x for x in ins], outs, name=self.nname("Dropout")))
             self.features.add("optional_output")
-            return [(out, "F23")] + ([(outs[1], "B23")] if len(outs) > 1 else [])
+            res = [(out, "F23")] + ([(outs[1], "B23")] if len(outs) > 1 else [])
+            if self.gen >= 2 and t.pick(2):
+                # twin with the same inputs and attributes but the other number of outputs (mask requested / not requested)
+                outs2 = [self.fresh()] + ([self.fresh()] if len(outs) == 1 else [])
+                nodes.append(oh.make_node("Dropout", [x for x in ins], outs2, name=self.nname("Dropout")))
+                self.features.add("duplicate_subexpression")
+                self.features.add("duplicate_differs_in_output_count")
+                res += [(outs2[0], "F23")] + ([(outs2[1], "B23")] if len(outs2) > 1 else [])
+            return res
         if k == 10:
             f3 = [self.pick_kind(pool, "F3") for _ in range(2)]
             if any(x is None for x in f3):
@@ -182,6 +190,18 @@ class RGen:
                     del dup.input[:]
                     dup.input.extend([ins3[0], ins3[2], ins3[1]] if ins3[1] else [ins3[0], ins3[2]])
                     self.features.add("duplicate_differs_in_optional_slot")
+            if self.gen >= 2 and src.op_type == "Dropout" and change in (0, 3):
+                # same inputs and attributes, another number of outputs (the optional mask requested or not)
+                if len(dup.output) == 1:
+                    mask = self.fresh()
+                    dup.output.append(mask)
+                    nodes.append(dup)
+                    self.features.add("duplicate_subexpression")
+                    self.features.add("duplicate_differs_in_output_count")
+                    return [(dup.output[0], "F23"), (mask, "B23")]
+                del dup.output[1:]
+                newouts = list(dup.output)
+                self.features.add("duplicate_differs_in_output_count")
             nodes.append(dup)
             self.features.add("duplicate_subexpression")
             kinds = [k_ for v, k_ in pool if v in src.output]
@@ -250,6 +270,8 @@ class RGen:
             return []
         out = self.fresh()
         branches = []
+        reuse_local = self.gen >= 2 and t.pick(3) == 0
+        reuse_tag = self.n
         for br in ("then", "else"):
             bn, local = self.body(pool, depth, 1 + t.pick(3))
             cands = [v for v, k in local if k == "F23"]
@@ -269,6 +291,18 @@ class RGen:
                 res2 = self.fresh("bi")
                 bn.append(oh.make_node("Add", [res, bname], [res2], name=self.nname("Add")))
                 res = res2
+            if self.gen >= 2 and reuse_local:
+                # sibling branches reuse one local value name with different element types (legal: the scopes are disjoint)
+                tmp = f"tmp_local_d{depth}_{reuse_tag}"
+                res3 = self.fresh("rl")
+                if br == "then":
+                    bn.append(oh.make_node("Cast", [res], [tmp], to=TP.INT64, name=self.nname("Cast")))
+                    bn.append(oh.make_node("Cast", [tmp], [res3], to=TP.FLOAT, name=self.nname("Cast")))
+                else:
+                    bn.append(oh.make_node("Neg", [res], [tmp], name=self.nname("Neg")))
+                    bn.append(oh.make_node("Neg", [tmp], [res3], name=self.nname("Neg")))
+                res = res3
+                self.features.add("sibling_scopes_reuse_name")
             branches.append(oh.make_graph(bn, f"{br}_{self.n}", [], [vinfo(res, "F23")], initializer=binits))
         nodes.append(oh.make_node("If", [cond], [out], then_branch=branches[0], else_branch=branches[1], name=self.nname("If")))
         self.features.add("control_flow_capture")
@@ -331,6 +365,15 @@ class RGen:
         if self.functions:
             self.features.add("function")
 
+    def make_functions_v2(self):
+        # f3(x) = ai.onnx.ml::Scaler(x): the function body needs a domain the model itself does not import
+        if self.t.pick(3) == 0:
+            f3 = oh.make_function("local", "f3", ["x"], ["y"], [oh.make_node("Scaler", ["x"], ["y"], domain="ai.onnx.ml", offset=[0.5], scale=[2.0], name="fb")],
+                                  [oh.make_opsetid("", self.opset), oh.make_opsetid("ai.onnx.ml", 3)])
+            self.functions["f3"] = f3
+            self.fn_sigs["f3"] = (1, [])
+            self.features.add("function_with_foreign_domain")
+
     def call(self, nodes, pool):
         t = self.t
         names = sorted(self.fn_sigs)
@@ -349,6 +392,8 @@ class RGen:
     def model(self):
         t = self.t
         self.make_functions()
+        if self.gen >= 2:
+            self.make_functions_v2()
         inputs = [vinfo("x0", "F23"), vinfo("x1", "F23"), vinfo("cnd", "B")]
         pool = [("x0", "F23"), ("x1", "F23"), ("cnd", "B")]
         inits = []
